@@ -159,6 +159,19 @@ Section CancelTransparent.
     - do 3 eexists; repeat split; eauto.
   Qed.
 
+  (* ExecuteContext with context.Background()/TODO() (cancellable = false) or with a context that is
+     never cancelled (d = None) returns what Execute returns and leaves the same state *)
+  Corollary execute_context_is_execute fuel cp m0 cancellable d stale :
+    cancellable = false \/ d = None ->
+    fst (execute_all fuel cp m0 (cs_execute_context cancellable d)) = fst (execute_all fuel cp m0 (cs_execute stale)).
+  Proof.
+    intros Hs.
+    assert (H1 : silent (cs_execute_context cancellable d)) by (destruct Hs; [left|right]; assumption).
+    assert (H2 : silent (cs_execute stale)) by (left; reflexivity).
+    destruct (execute_all_same fuel cp m0 H1 H2) as (a & cs' & cs0' & E & E0 & _).
+    rewrite E, E0. reflexivity.
+  Qed.
+
   (* closeAll is deferred: it has run whenever the call returns *)
   Theorem execute_all_closes fuel cp m0 cs x fin cs' :
     execute_all fuel cp m0 cs = (x, fin, cs') ->
